@@ -24,7 +24,7 @@ def run(b, ps, tier, seed):
             "assumptions": ["the theorem is about the Gallina model Tc.v/TcTop.v; it speaks about /repo through the verdict correspondence run on every check",
                             "premise env_moded_b (mode recorded for a type definition = mode of its body) holds of parser output: evaluated on every parsed program of the run (flag moded= of the oracle line), not proved",
                             "K1: the root sequent of a top-level prc declaration is excluded from the theorem (the implementation does not check it)",
-                            "the oracle computes the sequents from the declared types completed by AddMissingModalities (Oracle.prepare), the theorem from the types in the accepted program returned by the checker"],
+                            "the oracle evaluates the statement on the accepted program returned by the checker MODEL when the model accepts (proved never to flag it: C06_oracle_agrees); when the model rejects, on the declared types completed by AddMissingModalities (Oracle.prepare)"],
             "trusted_extra": ["correspondence: probe tc (links /repo, -tags verif) vs extracted model on the same texts; extraction: ExtrOcamlBasic, ExtrOcamlString",
                               "oracle: coq/extract/Extract_lin.v + drv_lin.ml (indoracle)"]}
 
